@@ -284,6 +284,49 @@ static int join_seq() {
     }
     return 0;
 }
+// mode "joinrseq": join_node<tuple<long,...>, reserving> fed by one queue_node per port, a scripted successor, one thread; drained after every operation.
+// Dump per op: result, ports_with_no_inputs, forwarder_busy, successor registered?, tuples delivered, then per port: the sender's buffer size, sender registered in the
+// port's predecessor cache?; plus RES n = reservations still pending on ports or senders (must be 0).  Case and ops as in joinseq (op 1 p v = put v into the sender of port p;
+// op 4 = pull, only while the successor is not registered).   (model: JoinRModel.run_joinr)
+template <class Tuple, std::size_t... I> static void joinr_dump(tbb::flow::join_node<Tuple, tbb::flow::reserving>& j, std::vector<std::unique_ptr<tbb::flow::queue_node<long>>>& qs, Out& o, long& pending, std::index_sequence<I...>) {
+    long cachesz[] = { (long)(tbb::flow::input_port<I>(j).my_predecessors.empty() ? 0 : 1)... };
+    long res[] = { (long)(tbb::flow::input_port<I>(j).reserved ? 1 : 0)... };
+    for (std::size_t p = 0; p < sizeof...(I); ++p) { o.put((long)(qs[p]->my_tail - qs[p]->my_head)); o.put(cachesz[p]); if (res[p]) pending++; if (qs[p]->my_reserved) pending++; }
+}
+template <class Tuple, std::size_t... I> static void joinr_edges(tbb::flow::join_node<Tuple, tbb::flow::reserving>& j, std::vector<std::unique_ptr<tbb::flow::queue_node<long>>>& qs, std::index_sequence<I...>) {
+    int dummy[] = { (tbb::flow::make_edge(*qs[I], tbb::flow::input_port<I>(j)), 0)... }; (void)dummy;
+}
+template <class Tuple> static void joinr_seq_case(std::vector<i128>& c, Out& o) {
+    constexpr std::size_t N = std::tuple_size<Tuple>::value; auto idx = std::make_index_sequence<N>();
+    tbb::flow::graph g; tbb::flow::join_node<Tuple, tbb::flow::reserving> j(g); TupleRecv<Tuple> rc(g);
+    std::vector<std::unique_ptr<tbb::flow::queue_node<long>>> qs; for (std::size_t p = 0; p < N; ++p) qs.emplace_back(new tbb::flow::queue_node<long>(g));
+    joinr_edges(j, qs, idx);
+    tbb::flow::make_edge(j, rc);
+    long pending = 0;
+    for (size_t p = 1; p + 2 < c.size(); p += 3) {
+        int op = (int)c[p]; long a = (long)c[p + 1], v = (long)c[p + 2]; long r = 0;
+        if (op == 1) { if (a >= 0 && a < (long)N) { qs[(size_t)a]->try_put(v); r = 1; } }
+        else if (op == 2) { rc.acc = true; r = 1; }
+        else if (op == 3) { rc.acc = false; r = 1; }
+        else if (op == 4) { if (!rc.registered) { Tuple t; if (j.try_get(t)) { rc.got.push_back(t); r = 1; } } }
+        else if (op == 6) { if (!rc.registered) { tbb::flow::make_edge(j, rc); rc.registered = true; } r = 1; }
+        g.wait_for_all();
+        o.put(r); o.put((long)j.ports_with_no_inputs.load()); o.put(j.forwarder_busy ? 1 : 0); o.put(j.my_successors.empty() ? 0 : 1); o.put((long)rc.got.size());
+        joinr_dump(j, qs, o, pending, idx);
+    }
+    o.put(-7);
+    for (auto& t : rc.got) put_tuple(t, o, idx);
+    o.put(-8); o.put(pending);
+}
+static int joinr_seq() {
+    std::vector<i128> c; Out o; Watchdog wd(20.0);
+    while (read_case(c)) {
+        wd.arm(&o);
+        if (c[0] == 3) joinr_seq_case<std::tuple<long, long, long>>(c, o); else joinr_seq_case<std::tuple<long, long>>(c, o);
+        wd.disarm(); o.flush();
+    }
+    return 0;
+}
 static int mt_join(int P, unsigned seed, int n, int policy) {   // two ports fed by different threads: queueing -> i-th with i-th; reserving -> all-or-nothing; key_matching -> same key
     tbb::global_control gc(tbb::global_control::max_allowed_parallelism, P);
     graph g;
@@ -316,6 +359,7 @@ int main(int argc, char** argv) {
     std::string mode = argc > 1 ? argv[1] : "";
     if (mode == "limseq") return lim_seq();
     if (mode == "joinseq") return join_seq();
+    if (mode == "joinrseq") return joinr_seq();
     if (mode == "seq") {
         std::vector<i128> c; Out o; Watchdog wd(20.0);
         while (read_case(c)) {
